@@ -36,8 +36,10 @@ TRUSTED = [
 ASSUMPTIONS = [
     'weak-pairing (Delta = 2^-7, 2^-10) and band-hopping (2^-10 .. 2^-17) Hamiltonians: tolerance 1e-6 instead of 1e-9 (largest residual observed on the pinned tree: 1.2e-7) (second-order '
     'amplitudes fall below EQ_TOLERANCE = 1e-8 and are pruned by the library); weaker pairing (2^-14 .. 2^-20) puts Bogoliubov '
-    'amplitudes within two decades of EQ_TOLERANCE where the unmodified code returns O(1)-wrong states (observed, see report) - '
-    'outside the regime this check decides, not generated',
+    'amplitudes within two decades of EQ_TOLERANCE where the unmodified code returns O(1)-wrong states even for the default '
+    'occupation (M = [[1,0,1],[0,-2,0],[1,0,-1]], Delta_01 = 2^-14: residual 1.41, still present after repair 7be94873): there the '
+    'annihilation block of W is numerically singular and fermionic_gaussian_decomposition fails its reconstruction, i.e. the class '
+    'of known finding F11 / F12 - not generated',
     'single-precision inputs (float32 / complex64) of the types stream: tolerance 1e-4 (LAPACK runs in single precision)',
     'history stream: subtraction with a pairing term only in the subtrahend is avoided (PolynomialTensor.__sub__ with a key only in '
     'the subtrahend is the known finding of C08, not the subject of C12)',
@@ -45,7 +47,8 @@ ASSUMPTIONS = [
     'dtypes stream: the accepted array dtypes are hard-coded from a probe of the pinned tree (float16 and object arrays are rejected by '
     'numpy.linalg.eigh, a bool hermitian_part with mu = 0 and pairing is rejected by numpy in majorana_form); int8 / uint8 matrices '
     'with entries beyond half the range of the type, mu = 0 and pairing are the known finding F12-majorana-integer-overflow; '
-    'matrices with such large entries (up to 255) are compared at 1e-6 (absolute errors scale with the norm)',
+    'matrices with such large entries (up to 255) are compared at 1e-6 (absolute errors scale with the norm) and combined with '
+    'pairing only for mu = 0 (with mu != 0 they are weak-pairing Hamiltonians: residual 2.5e-4 observed on the pinned tree)',
 ]
 OPEN_STATEMENTS = [
     'subset_sum_spectrum: proved half — in every representation of the CAR with a vacuum, b+_S|vac> is an eigenvector of '
@@ -1053,6 +1056,10 @@ def stream_dtypes(ctx):
             dD = rng.choice(DT_POOL)
             D = dt_antisymmetric(rng, n, dD, structure)
         mu, kmu = rng.choice(MU_POOL0) if rng.random() < 0.5 else rng.choice(MU_POOL1)
+        if large and D is not None and D.any():
+            # entries ~200 with pairing ~1 is the weak-pairing regime (relative amplitudes ~1e-3, see ASSUMPTIONS): generated only
+            # with mu = 0, where the stored integer matrix reaches majorana_form (known finding F12-majorana-integer-overflow)
+            mu, kmu = rng.choice(MU_POOL0)
         const = rng.choice([0.0, 1.0, -0.5])
         if dt_array(M, dt, order) is None or (D is not None and dt_array(D, dD, order) is None):
             s.count('values-do-not-fit-type')
